@@ -659,6 +659,28 @@ func c09Rebuild(c *Ctx, a *sketchAnchors) {
 		}
 		c.R.check(bad == "" && nOK > 0, rule, "FromProtoWithStoreProvider", shortFn(f), c.fpos(f), "PositiveValues→positive store, NegativeValues→negative store, ZeroCount copied, mapping from pb.Mapping with its error returned", firstNonEmpty(bad, fmt.Sprintf("%d success path(s)", nOK)))
 	}
+	// the store-level convenience constructor returns a fresh store that received the message
+	if g := c.P.Func(pkgStore, "FromProto"); g != nil {
+		ps, _ := exec(c, g, nil, 1)
+		ok := len(ps) > 0
+		found := fmt.Sprintf("%d path(s)", len(ps))
+		for _, p := range ps {
+			merged := false
+			for _, e := range p.Calls() {
+				if e.Call.Op == "call" && strings.HasSuffix(e.Call.Sym, ".MergeWithProto") && len(e.Call.Args) == 2 && len(p.RetT) == 1 && sameVal(stripConv(e.Call.Args[0]), stripConv(p.RetT[0])) && e.Call.Args[1].isParam(0) {
+					merged = true
+				}
+				if isMethodCall(e.Call, "MergeWithProto") && len(e.Call.Args) == 2 && len(p.RetT) == 1 && sameVal(stripConv(e.Call.Args[0]), stripConv(p.RetT[0])) && e.Call.Args[1].isParam(0) {
+					merged = true
+				}
+			}
+			if !merged {
+				ok = false
+				found = "the returned store does not receive the message: " + describeRet(p)
+			}
+		}
+		c.R.check(ok, rule, "store.FromProto/receives-the-message", shortFn(g), c.fpos(g), "the message is merged into the store that is returned, on every path", found)
+	}
 	// the convenience entry point rebuilds through the provider form (or would have to meet the same obligations)
 	if g := c.P.Func(pkgSketch, "FromProto"); g != nil {
 		ps, _ := exec(c, g, nil, 1)
